@@ -111,6 +111,8 @@ pub trait Prop {
     /// called in a worker before `prepare`: the worker only executes indexes congruent to w modulo nw,
     /// so a property may avoid materialising the other cases (the enumeration order must not change)
     fn set_shard(&mut self, _w: u64, _nw: u64) {}
+    /// called in the parent before `prepare`: the parent only needs the number of cases
+    fn set_parent_mode(&mut self) {}
 }
 
 // ------------------------------------------------------------------ per-case instrumentation
@@ -367,6 +369,7 @@ pub fn work_dir(id: &str) -> PathBuf {
 /// run the whole sweep; returns merged results. Machinery failures are returned as Err.
 pub fn run_parent(prop: &mut dyn Prop, tier: Tier) -> Result<RunResult, String> {
     let t0 = Instant::now();
+    prop.set_parent_mode();
     with_silenced_stdout(|| prop.prepare(tier))?;
     let n = prop.n_cases();
     let id = prop.id();
@@ -543,7 +546,7 @@ pub fn run_parent(prop: &mut dyn Prop, tier: Tier) -> Result<RunResult, String> 
 }
 
 /// re-run one case in a fresh subprocess and return its violation signature (or "" if none, "crash:..." if it died)
-pub fn replay_in_subprocess(id: &str, tier: Tier, idx: u64) -> Result<String, String> {
+pub fn replay_in_subprocess(id: &str, tier: Tier, idx: u64) -> Result<(String, Option<Value>), String> {
     let exe = std::env::current_exe().map_err(|e| e.to_string())?;
     let out = Command::new(exe)
         .arg("--one")
@@ -556,12 +559,16 @@ pub fn replay_in_subprocess(id: &str, tier: Tier, idx: u64) -> Result<String, St
         .output()
         .map_err(|e| e.to_string())?;
     let err = String::from_utf8_lossy(&out.stderr).to_string();
+    let mut desc = None;
     for l in err.lines() {
+        if let Some(d) = l.strip_prefix("ONE-DESC: ") {
+            desc = serde_json::from_str(d).ok();
+        }
         if let Some(s) = l.strip_prefix("ONE-SIG: ") {
-            return Ok(s.to_string());
+            return Ok((s.to_string(), desc));
         }
     }
-    Ok(format!("crash:{:?}", out.status))
+    Ok((format!("crash:{:?}", out.status), desc))
 }
 
 /// entry point for `--one`: run a single case in-process and print its signature on stderr
@@ -570,6 +577,8 @@ pub fn one_main(mut prop: Box<dyn Prop>, tier: Tier, idx: u64, verbose: bool) ->
         silence_stdout();
     }
     install_panic_hook();
+    // materialise only the residue class of this index (the enumeration order does not depend on the shard)
+    prop.set_shard(idx % 16, 16);
     if let Err(e) = prop.prepare(tier) {
         eprintln!("prepare failed: {}", e);
         return 2;
@@ -581,6 +590,7 @@ pub fn one_main(mut prop: Box<dyn Prop>, tier: Tier, idx: u64, verbose: bool) ->
     if verbose {
         eprintln!("case: {}", prop.describe(idx));
     }
+    eprintln!("ONE-DESC: {}", prop.describe(idx));
     let out = guarded(prop.as_mut(), idx);
     if verbose {
         eprintln!("class: {}", out.class);
